@@ -459,6 +459,7 @@ fn c07(a: &Args) -> Report {
         Op::RstLazy,
         Op::DamageRst,
         Op::DamageRstLazy,
+        Op::KillRst,
     ];
     let mut s = SeqSpec::new("C07/seq", alphabet, if thorough { 6 } else { 5 });
     s.checks = Checks { no_harm: true, ..Default::default() };
@@ -627,6 +628,7 @@ fn c15(a: &Args) -> Report {
         Op::DamageRstLazy,
         Op::Rst,
         Op::RstLazy,
+        Op::KillRst,
     ];
     let mut specs = Vec::new();
     for gs in [2usize, 8] {
